@@ -11,6 +11,7 @@ package lossless
 import (
 	"runtime"
 	"sync"
+	"github.com/deepteams/webp/internal/verifhook"
 )
 
 const (
@@ -209,6 +210,7 @@ func (hc *HashChain) Fill(argb []uint32, quality int, xsize, ysize int, lowEffor
 
 	// Decide between parallel and serial second pass.
 	numWorkers := runtime.GOMAXPROCS(0)
+	numWorkers = verifhook.Workers("ll.hashchain", numWorkers)
 	if numWorkers > 1 && size > 50000 && !lowEffort {
 		hc.fillParallel(argb, xsize, size, iterMax, winSize, numWorkers)
 	} else {
